@@ -153,13 +153,13 @@ Theorem C15_verdict_is_model_execution : forall cs,
   mismatches cs = [] <->
   Forall (fun k =>
     dirlog_ok (c_dirlog k) /\
-    (c_model k = true -> accepted (c_cfg k) (w_init (c_fids k) (c_dm k) (c_k0 k)) (c_steps k)) /\
-    oracles_ok (c_cfg k) (c_writers k) (c_counts k) (c_dm k) false false (w_init (c_fids k) (c_dm k) (c_k0 k)) [] 0%N (c_steps k)) cs.
+    (c_model k = true -> accepted (c_cfg k) (empties_of (c_steps k)) (w_init (c_fids k) (c_dm k) (c_k0 k)) (c_steps k)) /\
+    oracles_ok (c_cfg k) (c_writers k) (c_counts k) (c_dm k) (empties_of (c_steps k)) false false (w_init (c_fids k) (c_dm k) (c_k0 k)) [] 0%N (c_steps k)) cs.
 Proof. exact mismatches_nil_iff. Qed.
 Print Assumptions C15_verdict_is_model_execution.
 (* one observation agrees with the model state exactly when the evaluator reports nothing for it: acknowledgement, listing
    (kinds, modes, contents in reading order), BytesWritten, LastCreated, directory mode, foreign files, stdout/stderr *)
-Theorem C15_observation_agrees_iff : forall w ok o, check_model w ok o = [] <-> agrees w ok o.
+Theorem C15_observation_agrees_iff : forall E w ok o, check_model E w ok o = [] <-> agrees E w ok o.
 Proof. exact check_model_nil_iff. Qed.
 Print Assumptions C15_observation_agrees_iff.
 (* the directory event log of a concurrent case: stamps strictly increase in order of appearance (= order of the critical
